@@ -128,9 +128,26 @@ def check_parse_pdb(chk) -> None:
         chk.expect(ok, "pdb-atom-record", fi.site(b), "Atom(None, None, ResidueAuth(chain, number, icode, name), model, atom name, x, y, z, occupancy)", "the Atom built from a PDB line does not carry (auth identity, current model, name, x, y, z, occupancy) in field order", K(fi, "atom-record"))
     tpi = repo.func(P, "try_parse_int")
     chk.note_function(tpi)
-    body = tpi.node.body
-    ok = len(body) == 1 and isinstance(body[0], ast.Try) and [norm(s) for s in body[0].body] == [f"return int({tpi.node.args.args[0].arg})"] and len(body[0].handlers) == 1 and [norm(s) for s in body[0].handlers[0].body] == ["return None"]
-    chk.expect(ok, "int-parsing", tpi.where, "try_parse_int = int(s), None on failure: negative numbers survive", "try_parse_int is not `try: return int(s) except: return None` - e.g. isdigit() rejects negative residue numbers", K(tpi, "body"))
+    arg = tpi.node.args.args[0].arg
+    body = [b for b in tpi.node.body if not (isinstance(b, ast.Expr) and isinstance(b.value, ast.Constant))]
+    digit_tests = [n for n in ast.walk(tpi.node) if isinstance(n, ast.Call) and isinstance(n.func, ast.Attribute) and n.func.attr in ("isdigit", "isnumeric", "isdecimal")]
+    regexes = [n for n in ast.walk(tpi.node) if isinstance(n, ast.Call) and astq.dotted(n.func) in ("re.match", "re.fullmatch", "re.search") and n.args and isinstance(n.args[0], ast.Constant) and isinstance(n.args[0].value, str) and "-" not in n.args[0].value]
+    canonical = len(body) == 1 and isinstance(body[0], ast.Try) and [norm(x) for x in body[0].body] == [f"return int({arg})"] and len(body[0].handlers) == 1 and [norm(x) for x in body[0].handlers[0].body] == ["return None"] and (body[0].handlers[0].type is None or any(t in norm(body[0].handlers[0].type) for t in ("ValueError", "Exception")))
+    if digit_tests or regexes:
+        n0 = (digit_tests or regexes)[0]
+        chk.violation("int-parsing", tpi.site(n0), f"try_parse_int accepts a string only if `{norm(n0)[:60]}`: a leading minus sign fails that test, so negative residue numbers (auth_seq_id -3) are read as None", K(tpi, "body"), found=norm(n0))
+    elif canonical:
+        handler = body[0].handlers[0]
+        chk.ok("int-parsing", tpi.where, "try_parse_int = int(s), None on failure: negative numbers survive")
+    else:
+        has_int = any(isinstance(n, ast.Call) and astq.callee_name(n) == "int" for n in ast.walk(tpi.node))
+        abs_call = [n for n in ast.walk(tpi.node) if isinstance(n, ast.Call) and astq.callee_name(n) == "abs"]
+        if abs_call:
+            chk.violation("int-parsing", tpi.site(abs_call[0]), "try_parse_int drops the sign of the number", K(tpi, "body"))
+        elif not has_int:
+            chk.violation("int-parsing", tpi.where, "try_parse_int no longer converts with int()", K(tpi, "body"))
+        else:
+            chk.error("int-parsing", tpi.where, "try_parse_int is neither `try: return int(s) except ValueError: return None` nor a recognised faulty form")
 
 
 def check_filter(chk) -> None:
@@ -149,80 +166,498 @@ def check_filter(chk) -> None:
     keys = [s for s in ast.walk(fi.node) if isinstance(s, ast.Assign) and norm(s.targets[0]) == "key" and isinstance(s.value, ast.Tuple)]
     ok = len(keys) == 1 and {norm(e) for e in keys[0].value.elts} >= {"atom.model", "atom.label", "atom.auth", "atom.name"}
     chk.expect(ok, "identity-key-model", fi.site(keys[0]) if keys else fi.where, "duplicate atoms are keyed by (model, label, auth, name)", "the duplicate-atom key does not contain model, label, auth and name: atoms of different models (or residues) overwrite each other", K(fi, "key"), found=norm(keys[0].value) if keys else None)
-    # replacement guard: new wins iff its occupancy is known and greater (None-safe)
-    reps = [s for s in ast.walk(fi.node) if isinstance(s, ast.Assign) and norm(s) == "unique_atoms[key] = atom"]
-    if len(reps) != 1:
-        chk.error("occupancy-wins", fi.where, "replacement site `unique_atoms[key] = atom` not found")
+    _duplicate_rule(chk, fi, fm)
+    _index_space(chk, fi)
+    _clash_rule(chk, fi, fm)
+
+
+def _resolve_aliases(node: ast.AST, scope: ast.AST, keep: Tuple[str, ...] = ()) -> ast.AST:
+    """Replace names bound once in `scope` to a simple expression (also through tuple unpacking) by that expression."""
+    import copy
+
+    alias: Dict[str, ast.AST] = {}
+    for st in ast.walk(scope):
+        if isinstance(st, ast.Assign) and len(st.targets) == 1:
+            t, v = st.targets[0], st.value
+            if isinstance(t, ast.Name) and isinstance(v, (ast.Subscript, ast.Attribute, ast.Name)) and len(astq.assignments(scope, t.id)) == 1:
+                alias[t.id] = v
+            elif isinstance(t, ast.Tuple) and isinstance(v, ast.Tuple) and len(t.elts) == len(v.elts):
+                for a, b in zip(t.elts, v.elts):
+                    if isinstance(a, ast.Name) and isinstance(b, (ast.Subscript, ast.Attribute, ast.Name)) and len(astq.assignments(scope, a.id)) == 1:
+                        alias[a.id] = b
+    for k in keep:
+        alias.pop(k, None)
+
+    class _S(ast.NodeTransformer):
+        def visit_Name(s2, n):
+            if isinstance(n.ctx, ast.Load) and n.id in alias:
+                return copy.deepcopy(alias[n.id])
+            return n
+
+    out = copy.deepcopy(node)
+    for _ in range(3):
+        out = _S().visit(out)
+    return ast.fix_missing_locations(out)
+
+
+def _none_atom(t: str, what: str) -> Optional[bool]:
+    """truth of '<what> is None' stated by the atom text `t` being True; None when t is not about it"""
+    if t in (f"{what} is None", f"{what} == None"):
+        return True
+    if t in (f"{what} is not None", f"{what} != None", f"not {what} is None"):
+        return False
+    return None
+
+
+def _completions(known: Dict[str, Optional[bool]]):
+    import itertools
+
+    names = sorted(known)
+    free = [n for n in names if known[n] is None]
+    for vals in itertools.product((True, False), repeat=len(free)):
+        d = dict(known)
+        d.update(dict(zip(free, vals)))
+        yield d
+
+
+def _duplicate_rule(chk, fi: FuncInfo, fm: FlowMap) -> None:
+    """Path reading of the duplicate filter: a copy replaces the kept one iff it is the first, or its occupancy is known and the kept one's is unknown or lower."""
+    from sa import paths as PT
+
+    reps = [s2 for s2 in ast.walk(fi.node) if isinstance(s2, ast.Assign) and norm(s2) == "unique_atoms[key] = atom"]
+    loops = [l for l in fi.node.body if isinstance(l, ast.For) and any(r is n for r in reps for n in ast.walk(l))]
+    if len(reps) != 1 or len(loops) != 1:
+        chk.error("occupancy-wins", fi.where, "replacement site `unique_atoms[key] = atom` inside one loop over the atoms not found")
+        return
+    loop = loops[0]
+    NEW, KEPT = "atom.occupancy", "unique_atoms[key].occupancy"
+    problems = []
+    n_paths = 0
+    for events, exit_ in PT.paths(loop.body):
+        known = {"first": None, "new_none": None, "kept_none": None, "higher": None}
+        order = []
+        unknown = []
+        for ev in events:
+            if ev[0] != "test":
+                continue
+            t = norm(_resolve_aliases(ev[3], loop, keep=("key", "atom")))
+            val = ev[2]
+            if t == "key not in unique_atoms":
+                known["first"] = val
+            elif t == "key in unique_atoms":
+                known["first"] = not val
+            elif _none_atom(t, NEW) is not None:
+                known["new_none"] = (_none_atom(t, NEW) == val)
+            elif _none_atom(t, KEPT) is not None:
+                known["kept_none"] = (_none_atom(t, KEPT) == val)
+            elif t in (f"{NEW} > {KEPT}", f"{KEPT} < {NEW}", f"{NEW} >= {KEPT}", f"{KEPT} <= {NEW}"):
+                known["higher"] = val
+                order.append(("cmp", ev[3], dict(known)))
+            elif t in (f"{NEW} < {KEPT}", f"{KEPT} > {NEW}", f"{NEW} <= {KEPT}", f"{KEPT} >= {NEW}"):
+                known["higher"] = not val
+                order.append(("cmp", ev[3], dict(known)))
+            else:
+                unknown.append(t)
+        replaced = any(ev[0] == "stmt" and ev[1] is reps[0] for ev in events)
+        n_paths += 1
+        if unknown:
+            problems.append(("error", loop, f"condition `{unknown[0][:70]}` in the duplicate filter not understood", "unknown"))
+            continue
+        for _, node, k in order:
+            if k["new_none"] is not False or (k["kept_none"] is not False and k["first"] is not True):
+                problems.append(("optional-occupancy", node, f"`{norm(node)}` is evaluated on a path where {'the new' if k['new_none'] is not False else 'the kept'} atom's occupancy was not established to be known: TypeError (None compared with a number) for atoms without occupancy", "dup-none"))
+        for comp in _completions(known):
+            want = comp["first"] or ((not comp["new_none"]) and (comp["kept_none"] or comp["higher"]))
+            if want != replaced:
+                desc = ", ".join(f"{k}={v}" for k, v in comp.items())
+                problems.append(("occupancy-wins", reps[0], f"with ({desc}) the copy is {'kept over' if replaced else 'dropped in favour of'} the stored one, but the highest-occupancy copy must survive (replace iff first, or new occupancy known and stored one unknown or lower)", f"dup:{'replace' if replaced else 'keep'}:{int(bool(comp['first']))}{int(bool(comp['new_none']))}{int(bool(comp['kept_none']))}{int(bool(comp['higher']))}"))
+                break
+    seen = set()
+    hit = set()
+    for rule, node, msg, key in problems:
+        if key in seen:
+            continue
+        seen.add(key)
+        if rule == "error":
+            chk.error("occupancy-wins", fi.site(node), msg)
+            hit |= {"occupancy-wins", "optional-occupancy"}
+        else:
+            chk.violation(rule, fi.site(node), msg, K(fi, key))
+            hit.add(rule)
+    if "occupancy-wins" not in hit:
+        chk.ok("occupancy-wins", fi.site(reps[0]), f"{n_paths} paths: the first copy is kept; a later copy replaces it iff its occupancy is known and the stored one is unknown or lower")
+    if "optional-occupancy" not in hit:
+        chk.ok("optional-occupancy", fi.site(reps[0]), "occupancies are compared only where both were established to be known")
+
+
+def _index_space(chk, fi: FuncInfo) -> None:
+    """The KD-tree, the pair indices, the keep-set and the result all refer to positions in ONE list."""
+    from sa.defuse import Inliner
+
+    inl = Inliner(fi.node)
+    trees = [(st, v) for st, v in astq.assignments(fi.node, "tree") if v is not None]
+    if len(trees) != 1 or not (isinstance(trees[0][1], ast.Call) and astq.callee_name(trees[0][1]) == "KDTree" and trees[0][1].args):
+        chk.error("kdtree-index-space", fi.where, "`tree = KDTree(...)` not found")
+        return
+    pts = inl.inline(trees[0][1].args[0], trees[0][0], stop=("unique_atoms_list", "unique_atoms"))
+    m = astq.match(pts, "np.array(C_)") or astq.match(pts, "numpy.array(C_)")
+    comp = m["C_"] if m else pts
+    if not (isinstance(comp, (ast.ListComp, ast.GeneratorExp)) and len(comp.generators) == 1 and isinstance(comp.generators[0].target, ast.Name)):
+        chk.error("kdtree-index-space", fi.site(trees[0][0]), f"points of the KD-tree `{norm(pts)[:80]}` not understood")
+        return
+    g = comp.generators[0]
+    a = g.target.id
+    coords_ok = norm(comp.elt) in (f"({a}.x, {a}.y, {a}.z)", f"[{a}.x, {a}.y, {a}.z]", f"{a}.coordinates")
+    chk.expect(coords_ok, "kdtree-index-space", fi.site(trees[0][0]), "KD-tree points are the (x, y, z) of the atoms", f"KD-tree points are `{norm(comp.elt)}`, not (x, y, z)", K(fi, "tree-points"))
+    tree_space = norm(g.iter) + (" if " + " and ".join(norm(c) for c in g.ifs) if g.ifs else "")
+    spaces = {"KD-tree points": (tree_space, trees[0][0])}
+    cl = [l for l in fi.node.body if isinstance(l, ast.For) and isinstance(l.target, ast.Tuple) and len(l.target.elts) == 2 and "pairs" in astq.names(l.iter)]
+    if len(cl) == 1:
+        i, j = (norm(e) for e in cl[0].target.elts)
+        for n in ast.walk(cl[0]):
+            if isinstance(n, ast.Subscript) and isinstance(n.slice, ast.Name) and n.slice.id in (i, j) and isinstance(n.value, ast.Name):
+                spaces.setdefault(f"subscript [{n.slice.id}]", (norm(n.value), n))
+                if spaces[f"subscript [{n.slice.id}]"][0] != norm(n.value):
+                    spaces[f"subscript [{n.slice.id}] (2)"] = (norm(n.value), n)
+    keep = [(st, v) for st, v in astq.assignments(fi.node, "atoms_to_keep") if v is not None]
+    if len(keep) == 1:
+        mk = astq.match(keep[0][1], "set(range(len(L_)))")
+        if mk:
+            spaces["keep-set"] = (norm(mk["L_"]), keep[0][0])
+        else:
+            chk.error("kdtree-index-space", fi.site(keep[0][0]), f"keep-set `{norm(keep[0][1])}` not understood")
+    rets = [r for r in fi.node.body if isinstance(r, ast.Return) and r.value is not None]
+    if len(rets) == 1 and isinstance(rets[0].value, ast.ListComp) and len(rets[0].value.generators) == 1:
+        rc = rets[0].value
+        idx = norm(rc.generators[0].target)
+        mr = astq.match(rc.elt, f"L_[{idx}]")
+        src_ok = norm(rc.generators[0].iter) in ("atoms_to_keep", "sorted(atoms_to_keep)") and not rc.generators[0].ifs
+        if mr and src_ok:
+            spaces["result"] = (norm(mr["L_"]), rets[0])
+        else:
+            chk.error("kdtree-index-space", fi.site(rets[0]), f"result `{norm(rc)[:80]}` not understood")
     else:
-        g = [x for x in fm.of(reps[0]).guards if x.kind == "if"]
-        test = g[-1].test if g else None
-        cmps = [n for n in ast.walk(test) if isinstance(n, ast.Compare) and any(isinstance(o, (ast.Gt, ast.Lt, ast.GtE, ast.LtE)) for o in n.ops)] if test is not None else []
-        dir_ok = len(cmps) == 1 and norm(cmps[0]) in ("atom.occupancy > unique_atoms[key].occupancy", "unique_atoms[key].occupancy < atom.occupancy")
-        chk.expect(dir_ok, "occupancy-wins", fi.site(reps[0]), "a later copy replaces the kept one only if its occupancy is strictly higher (first wins ties)", "the duplicate filter does not keep the highest-occupancy copy (`new > kept`)", K(fi, "dup-direction"), found=[norm(x) for x in cmps])
-        if cmps:
-            gs = fm.expr_guards(g[-1].stmt, cmps[0]) or ()
-            fs = facts(tuple(x for x in gs if x.stmt is None or x.stmt is g[-1].stmt or True))
-            need = {"atom.occupancy": False, "unique_atoms[key].occupancy": False}
-            for f in fs:
-                for nm in need:
-                    if (norm(f.test) == f"{nm} is not None" and f.polarity) or (norm(f.test) == f"{nm} is None" and not f.polarity):
-                        need[nm] = True
-            chk.expect(all(need.values()), "optional-occupancy", fi.site(cmps[0]), "the occupancy comparison is reached only when both occupancies are known", "an Optional occupancy is compared with > without a dominating None test: TypeError for atoms without occupancy", K(fi, "dup-none"), found=need)
-        first = test is not None and any(norm(v) == "key not in unique_atoms" for v in (test.values if isinstance(test, ast.BoolOp) else [test]))
-        chk.expect(first, "occupancy-wins", fi.site(reps[0]), "the first copy of an atom is always kept", "the first occurrence of a key is not unconditionally kept", K(fi, "dup-first"))
-    # KD-tree over the list that the indices subscript
-    lst = astq.first_assign(fi.node, "unique_atoms_list")
-    coords = astq.first_assign(fi.node, "coords")
-    tree = astq.first_assign(fi.node, "tree")
-    pairs = astq.first_assign(fi.node, "pairs")
-    keep = astq.first_assign(fi.node, "atoms_to_keep")
-    ok = (
-        lst is not None and norm(lst) == "list(unique_atoms.values())"
-        and coords is not None and flat(coords) == flat("np.array([(atom.x, atom.y, atom.z) for atom in unique_atoms_list])")
-        and tree is not None and norm(tree) == "KDTree(coords)"
-        and pairs is not None and norm(pairs) in ("tree.query_pairs(r=clash_distance)", "tree.query_pairs(clash_distance)")
-        and keep is not None and norm(keep) == "set(range(len(unique_atoms_list)))"
-    )
-    chk.expect(ok, "kdtree-index-space", fi.where, "the KD-tree, the pair indices, the keep-set and the result all refer to positions in unique_atoms_list", "the KD-tree is not built over exactly the list that its pair indices (and the keep-set) subscript: wrong atoms are compared and dropped", K(fi, "index-space"), found={"coords": norm(coords) if coords is not None else None, "keep": norm(keep) if keep is not None else None})
-    subs = {norm(n.value) for n in ast.walk(fi.node) if isinstance(n, ast.Subscript) and isinstance(n.slice, ast.Name) and n.slice.id in ("i", "j") and "unique_atoms" in norm(n.value)}
-    chk.expect(subs == {"unique_atoms_list"}, "kdtree-index-space", fi.where, "pair indices subscript unique_atoms_list only", f"pair indices subscript {sorted(subs)}", K(fi, "index-subscripts"))
-    rets = [r for r in fi.node.body if isinstance(r, ast.Return)]
-    chk.expect(len(rets) == 1 and flat(rets[0].value) in (flat("[unique_atoms_list[i] for i in atoms_to_keep]"), flat("[unique_atoms_list[i] for i in sorted(atoms_to_keep)]")), "kdtree-index-space", fi.where, "result = the kept positions of unique_atoms_list", "the result is not [unique_atoms_list[i] for i in atoms_to_keep]", K(fi, "result"))
-    # clash loop
-    cl = [l for l in fi.node.body if isinstance(l, ast.For) and norm(l.iter) == "pairs"]
+        chk.error("kdtree-index-space", fi.where, "the result is not one list comprehension over the keep-set")
+    # resolve plain aliases (L2 = L1)
+    def root(name: str) -> str:
+        seen = set()
+        while name.isidentifier() and name not in seen:
+            seen.add(name)
+            d = [v for _, v in astq.assignments(fi.node, name) if v is not None]
+            if len(d) == 1 and isinstance(d[0], ast.Name):
+                name = d[0].id
+            else:
+                break
+        return name
+
+    roots = {k: root(v[0]) for k, v in spaces.items()}
+    distinct = sorted(set(roots.values()))
+    if len(distinct) == 1 and len(spaces) >= 4:
+        chk.ok("kdtree-index-space", fi.where, f"the KD-tree, the pair indices, the keep-set and the result all refer to positions in `{distinct[0]}`")
+    elif len(distinct) > 1:
+        base = roots.get("KD-tree points")
+        other = [(k, v) for k, v in roots.items() if v != base]
+        k0, v0 = other[0]
+        chk.violation("kdtree-index-space", fi.site(spaces[k0][1]), f"the KD-tree is built over `{base}` but the {k0} uses `{v0}`: positions reported by the tree name other atoms in that list, so the wrong atoms are compared and dropped", K(fi, "index-space"), expected=base, found={k: v for k, v in roots.items()})
+    else:
+        chk.error("kdtree-index-space", fi.where, f"only {sorted(spaces)} found of tree points / subscripts / keep-set / result")
+    lst = [(st, v) for st, v in astq.assignments(fi.node, root(spaces["KD-tree points"][0])) if v is not None] if spaces["KD-tree points"][0].isidentifier() else []
+    if len(lst) == 1:
+        chk.expect(norm(lst[0][1]) in ("list(unique_atoms.values())", "[*unique_atoms.values()]"), "kdtree-index-space", fi.site(lst[0][0]), "the list holds every atom that survived the duplicate filter, in first-seen order", f"the indexed list is `{norm(lst[0][1])[:70]}`, not list(unique_atoms.values())", K(fi, "index-list"))
+    pairs = [(st, v) for st, v in astq.assignments(fi.node, "pairs") if v is not None]
+    ok = len(pairs) == 1 and norm(pairs[0][1]) in ("tree.query_pairs(r=clash_distance)", "tree.query_pairs(clash_distance)")
+    chk.expect(ok, "clash-distance", fi.where, "pairs = tree.query_pairs(clash_distance)", "the candidate pairs are not tree.query_pairs(clash_distance)", K(fi, "pairs-source"))
+
+
+def _clash_rule(chk, fi: FuncInfo, fm: FlowMap) -> None:
+    """Path reading of the clash loop: nothing for atoms of different models or with an unknown occupancy; otherwise the lower-occupancy atom is dropped."""
+    from sa import paths as PT
+
+    cl = [l for l in fi.node.body if isinstance(l, ast.For) and isinstance(l.target, ast.Tuple) and len(l.target.elts) == 2 and "pairs" in astq.names(l.iter)]
     if len(cl) != 1:
         chk.error("clash-loop", fi.where, "clash loop over pairs not found")
         return
     cl = cl[0]
-    skips = [s for s in cl.body if isinstance(s, ast.If) and s.body and isinstance(s.body[-1], ast.Continue) and not s.orelse]
-    model_skip = [s for s in skips if flat(s.test) in (flat("unique_atoms_list[i].model != unique_atoms_list[j].model"), flat("unique_atoms_list[j].model != unique_atoms_list[i].model"))]
-    chk.expect(len(model_skip) == 1, "clash-same-model", fi.site(cl), "atoms of different models are never treated as clashing", "the proximity filter compares atoms of different models: overlapping models of an ensemble lose atoms", K(fi, "clash-model"))
-    none_skip = [s for s in skips if flat(s.test) in (flat("unique_atoms_list[i].occupancy is None or unique_atoms_list[j].occupancy is None"), flat("unique_atoms_list[j].occupancy is None or unique_atoms_list[i].occupancy is None"))]
-    chk.expect(len(none_skip) == 1, "optional-occupancy", fi.site(cl), "pairs with an unknown occupancy are skipped before comparing", "occupancies are compared in the clash loop without a None test", K(fi, "clash-none"))
-    extra = [s for s in skips if s not in model_skip and s not in none_skip]
-    chk.expect(not extra, "clash-loop", fi.site(cl), "no other pair is exempt from the clash rule", f"additional skip in the clash loop: `{norm(extra[0].test)[:60]}`" if extra else "", K(fi, "clash-extra"))
-    dec = [s for s in cl.body if isinstance(s, ast.If) and s not in skips]
-    ok = len(dec) == 1 and flat(dec[0].test) == flat("unique_atoms_list[i].occupancy > unique_atoms_list[j].occupancy") and [flat(s) for s in dec[0].body] == [flat("atoms_to_keep.discard(j)")] and [flat(s) for s in dec[0].orelse] == [flat("atoms_to_keep.discard(i)")]
-    ok2 = len(dec) == 1 and flat(dec[0].test) == flat("unique_atoms_list[i].occupancy < unique_atoms_list[j].occupancy") and [flat(s) for s in dec[0].body] == [flat("atoms_to_keep.discard(i)")] and [flat(s) for s in dec[0].orelse] == [flat("atoms_to_keep.discard(j)")]
-    chk.expect(ok or ok2, "clash-loser", fi.site(cl), "of two clashing atoms the one with the lower occupancy is dropped", "the clash rule does not drop the lower-occupancy atom of the pair", K(fi, "clash-loser"))
-    if dec and none_skip and model_skip:
-        chk.expect(max(none_skip[0].lineno, model_skip[0].lineno) < dec[0].lineno, "clash-loop", fi.site(cl), "the skips precede the decision", "the decision precedes its guards", K(fi, "clash-order"))
+    i, j = (norm(e) for e in cl.target.elts)
+    lists = {norm(n.value) for n in ast.walk(cl) if isinstance(n, ast.Subscript) and isinstance(n.slice, ast.Name) and n.slice.id in (i, j) and isinstance(n.value, ast.Name)}
+    if len(lists) != 1:
+        chk.error("clash-loop", fi.site(cl), f"pair indices subscript {sorted(lists)}")
+        return
+    L = next(iter(lists))
+    AI, AJ = f"{L}[{i}]", f"{L}[{j}]"
+    problems = []
+    n_paths = 0
+    for events, exit_ in PT.paths(cl.body):
+        known = {"diff_model": None, "i_none": None, "j_none": None, "i_higher": None}
+        cmps = []
+        unknown = []
+        for ev in events:
+            if ev[0] != "test":
+                continue
+            t = norm(_resolve_aliases(ev[3], cl, keep=(i, j, L)))
+            val = ev[2]
+            if t in (f"{AI}.model != {AJ}.model", f"{AJ}.model != {AI}.model"):
+                known["diff_model"] = val
+            elif t in (f"{AI}.model == {AJ}.model", f"{AJ}.model == {AI}.model"):
+                known["diff_model"] = not val
+            elif _none_atom(t, f"{AI}.occupancy") is not None:
+                known["i_none"] = _none_atom(t, f"{AI}.occupancy") == val
+            elif _none_atom(t, f"{AJ}.occupancy") is not None:
+                known["j_none"] = _none_atom(t, f"{AJ}.occupancy") == val
+            elif t in (f"{AI}.occupancy > {AJ}.occupancy", f"{AJ}.occupancy < {AI}.occupancy", f"{AI}.occupancy >= {AJ}.occupancy", f"{AJ}.occupancy <= {AI}.occupancy"):
+                known["i_higher"] = val
+                cmps.append((ev[3], dict(known)))
+            elif t in (f"{AI}.occupancy < {AJ}.occupancy", f"{AJ}.occupancy > {AI}.occupancy", f"{AI}.occupancy <= {AJ}.occupancy", f"{AJ}.occupancy >= {AI}.occupancy"):
+                known["i_higher"] = not val
+                cmps.append((ev[3], dict(known)))
+            else:
+                unknown.append((t, ev[3], val))
+        n_paths += 1
+        drops = [norm(a.args[0]) for a in PT.calls_on(events, "atoms_to_keep", "discard") + PT.calls_on(events, "atoms_to_keep", "remove") if a.args]
+        for node, k in cmps:
+            if k["i_none"] is not False or k["j_none"] is not False:
+                problems.append(("optional-occupancy", node, f"`{norm(node)[:80]}` is evaluated on a path where an occupancy was not established to be known: TypeError for atoms without occupancy", "clash-none"))
+            if k["diff_model"] is not False:
+                problems.append(("clash-same-model", node, "occupancies of two close atoms are compared on a path where they were not established to belong to the same model: overlapping models of an ensemble lose atoms", "clash-model"))
+        if drops and known["diff_model"] is not False:
+            problems.append(("clash-same-model", cl, f"an atom is dropped ({drops}) on a path where the two atoms were not established to belong to the same model: overlapping models of an ensemble lose atoms", "clash-model"))
+        if unknown:
+            t, node, val = unknown[0]
+            if not drops:
+                # an additional exemption: would the rule have dropped something here?
+                possible = any((not c["diff_model"]) and not c["i_none"] and not c["j_none"] for c in _completions(known))
+                if possible:
+                    problems.append(("clash-loop", node, f"additional exemption in the clash loop: when `{t[:60]}` is {val} two close atoms of one model with known occupancies are both kept", "clash-extra"))
+            else:
+                problems.append(("error", node, f"condition `{t[:70]}` in the clash loop not understood", "unknown"))
+            continue
+        for comp in _completions(known):
+            if comp["diff_model"] or comp["i_none"] or comp["j_none"]:
+                want = []
+            else:
+                want = [j] if comp["i_higher"] else [i]
+            if sorted(drops) != sorted(want):
+                desc = ", ".join(f"{k}={v}" for k, v in comp.items())
+                problems.append(("clash-loser", cl, f"with ({desc}) the loop drops {drops or 'nothing'}, the rule needs {want or 'nothing'} (of two clashing atoms of one model the one with the lower occupancy goes)", f"clash-loser:{desc}"))
+                break
+    seen = set()
+    hit = set()
+    for rule, node, msg, key in problems:
+        if key.split(":")[0] in seen:
+            continue
+        seen.add(key.split(":")[0])
+        if rule == "error":
+            chk.error("clash-loop", fi.site(node), msg)
+            hit |= {"clash-loop", "clash-loser"}
+        else:
+            chk.violation(rule, fi.site(node), msg, K(fi, key.split(":")[0]))
+            hit.add(rule)
+    for rule, msg in (("clash-same-model", "atoms of different models are never treated as clashing"), ("optional-occupancy", "pairs with an unknown occupancy are skipped before comparing"), ("clash-loop", "no other pair is exempt from the clash rule"), ("clash-loser", f"{n_paths} paths: of two clashing atoms the one with the lower occupancy is dropped")):
+        if rule not in hit:
+            chk.ok(rule, fi.site(cl), msg)
+
+
+EAGER = {"list", "tuple", "set", "frozenset", "sorted", "sum", "max", "min", "any", "all", "next", "dict", "len", "join", "array", "extend", "update", "Counter", "deque"}
+
+
+def late_binding_sites(fn: ast.AST) -> List[Tuple[ast.AST, str]]:
+    """Lazy iterators (filter/map/generator expressions) that capture a comprehension or loop variable and are stored
+    unevaluated: when they finally run the variable has its last value."""
+    out = []
+    par = astq.parents(fn)
+    for c in ast.walk(fn):
+        if isinstance(c, (ast.ListComp, ast.SetComp, ast.DictComp, ast.GeneratorExp)):
+            bound = {x.id for g in c.generators for x in ast.walk(g.target) if isinstance(x, ast.Name)}
+            bodies = [c.key, c.value] if isinstance(c, ast.DictComp) else [c.elt]
+        elif isinstance(c, ast.For):
+            bound = {x.id for x in ast.walk(c.target) if isinstance(x, ast.Name)}
+            bodies = list(c.body)
+        else:
+            continue
+        for b in bodies:
+            for n in ast.walk(b):
+                lazy = None
+                if isinstance(n, ast.Call) and isinstance(n.func, ast.Name) and n.func.id in ("filter", "map") and n.args and isinstance(n.args[0], ast.Lambda):
+                    free = {x.id for x in ast.walk(n.args[0].body) if isinstance(x, ast.Name)} - {a.arg for a in n.args[0].args.args}
+                    if free & bound:
+                        lazy = (n, sorted(free & bound)[0])
+                elif isinstance(n, ast.GeneratorExp) and n is not c:
+                    inner = {x.id for g in n.generators for x in ast.walk(g.target) if isinstance(x, ast.Name)}
+                    free = {x.id for x in ast.walk(n) if isinstance(x, ast.Name)} - inner
+                    if free & bound:
+                        lazy = (n, sorted(free & bound)[0])
+                if lazy is None:
+                    continue
+                p = par.get(id(n))
+                consumed = isinstance(p, ast.Call) and n in p.args and (astq.callee_name(p) in EAGER)
+                if isinstance(c, ast.For):
+                    # inside a loop body the iterator is fine when consumed within the same round
+                    consumed = consumed or isinstance(p, (ast.For, ast.comprehension))
+                else:
+                    consumed = consumed or isinstance(p, ast.comprehension)
+                if not consumed:
+                    out.append((lazy[0], lazy[1]))
+    return out
+
+
+def _beta(e: ast.AST) -> ast.AST:
+    """{k: V for k in S}[X]  ->  V[k := X]   (X is taken to be a member of S)"""
+    import copy
+
+    class _B(ast.NodeTransformer):
+        def visit_Subscript(s2, n):
+            n = s2.generic_visit(n)
+            if isinstance(n.value, ast.DictComp) and len(n.value.generators) == 1 and isinstance(n.value.generators[0].target, ast.Name) and norm(n.value.key) == n.value.generators[0].target.id and not n.value.generators[0].ifs:
+                k = n.value.generators[0].target.id
+                idx = n.slice
+
+                class _S(ast.NodeTransformer):
+                    def visit_Name(s3, m):
+                        if m.id == k and isinstance(m.ctx, ast.Load):
+                            return copy.deepcopy(idx)
+                        return m
+
+                return _S().visit(copy.deepcopy(n.value.value))
+            return n
+
+    return ast.fix_missing_locations(_B().visit(copy.deepcopy(e)))
 
 
 def check_model_selection(chk) -> None:
+    """Along every path of read_3d_structure the atoms handed to group_atoms are `atoms of the file whose model equals M`, with
+    M = the requested model when it is given and present, else the first model of the file."""
+    import copy
+
+    from sa import paths as PT
+
     repo = chk.repo
     fi = repo.func(P, "read_3d_structure")
     chk.note_function(fi)
-    am = astq.first_assign(fi.node, "available_models")
-    abm = astq.first_assign(fi.node, "atoms_by_model")
-    ok = am is not None and flat(am) == flat("{atom.model: None for atom in atoms}") and abm is not None and flat(abm) == flat("{model: list(filter(lambda atom: atom.model == model, atoms)) for model in available_models}")
-    chk.expect(ok, "model-selection", fi.where, "atoms are partitioned by atom.model, models in file order", "atoms are not partitioned by exact equality of atom.model over the models in file order", K(fi, "partition"))
-    sel = [s for s in fi.node.body if isinstance(s, ast.If)]
-    ok = len(sel) == 1 and flat(sel[0].test) == flat("model is not None and model in available_models") and [flat(s) for s in sel[0].body] == [flat("atoms = atoms_by_model[model]")] and [flat(s) for s in sel[0].orelse] == [flat("atoms = atoms_by_model[list(available_models.keys())[0]]")]
-    chk.expect(ok, "model-selection", fi.where, "the requested model if present, else the first model of the file", "model selection is not `atoms_by_model[model] if model is present else the first model`", K(fi, "select"))
-    rets = [r for r in fi.node.body if isinstance(r, ast.Return)]
-    ok = len(rets) == 1 and flat(rets[0].value) == flat("group_atoms(atoms, modified, sequence_by_entity, is_nucleic_acid_by_entity, nucleic_acid_only)")
-    chk.expect(ok, "model-selection", fi.where, "the selected atoms are grouped into residues", "the result is not group_atoms(selected atoms, ...)", K(fi, "result"))
+    for n, var in late_binding_sites(fi.node):
+        chk.violation("late-binding", fi.site(n), f"`{norm(n)[:80]}` is a lazy iterator that captures the comprehension/loop variable `{var}` and is stored unevaluated: when it is finally consumed `{var}` has its last value, so every entry selects the same (last) model", K(fi, f"late-binding:{var}"))
+    chk.ok("late-binding", fi.where, "no lazy iterator over a loop/comprehension variable escapes its iteration")
+    FIRST_FORMS = ("list(AM.keys())[0]", "list(AM)[0]", "next(iter(AM))", "next(iter(AM.keys()))", "[*AM][0]", "min(AM)")
+    AM_FORMS = ("{atom.model: None for atom in atoms}", "dict.fromkeys((atom.model for atom in atoms))", "dict.fromkeys([atom.model for atom in atoms])", "list(dict.fromkeys((atom.model for atom in atoms)))")
+    results = {}
+    problems = []
+    for events, exit_ in PT.paths(fi.node.body):
+        if exit_ != "return":
+            problems.append("a path does not return")
+            continue
+        dec = {}
+        for ev in events:
+            if ev[0] == "test":
+                dec[ev[1]] = ev[2]
+        store: Dict[str, ast.AST] = {}
+
+        def subst(e):
+            class _S(ast.NodeTransformer):
+                def visit_Name(s2, n):
+                    if isinstance(n.ctx, ast.Load) and n.id in store:
+                        return copy.deepcopy(store[n.id])
+                    return n
+
+                def visit_Lambda(s2, n):
+                    shadow = {a.arg for a in n.args.args}
+                    saved = {k: store.pop(k) for k in list(store) if k in shadow}
+                    try:
+                        n.body = s2.visit(n.body)
+                    finally:
+                        store.update(saved)
+                    return n
+
+                def _comp(s2, n):
+                    shadow = {x.id for g in n.generators for x in ast.walk(g.target) if isinstance(x, ast.Name)}
+                    # iterables are evaluated outside, elements inside the comprehension scope
+                    for g in n.generators:
+                        g.iter = s2.visit(g.iter)
+                    saved = {k: store.pop(k) for k in list(store) if k in shadow}
+                    try:
+                        for g in n.generators:
+                            g.ifs = [s2.visit(c) for c in g.ifs]
+                        if isinstance(n, ast.DictComp):
+                            n.key = s2.visit(n.key)
+                            n.value = s2.visit(n.value)
+                        else:
+                            n.elt = s2.visit(n.elt)
+                    finally:
+                        store.update(saved)
+                    return n
+
+                visit_ListComp = visit_SetComp = visit_DictComp = visit_GeneratorExp = _comp
+
+            return _S().visit(copy.deepcopy(e))
+
+        ret = None
+        for ev in events:
+            if ev[0] != "stmt":
+                continue
+            st = ev[1]
+            if isinstance(st, ast.Assign) and len(st.targets) == 1 and isinstance(st.targets[0], ast.Name):
+                # the parse result `atoms` stays symbolic the first time it is bound from the reader
+                if isinstance(st.value, ast.Name) or not any(isinstance(x, ast.Call) and astq.callee_name(x) in ("parse_cif", "parse_pdb", "parse") for x in ast.walk(st.value)):
+                    store[st.targets[0].id] = subst(st.value)
+            elif isinstance(st, ast.Return):
+                ret = subst(st.value) if st.value is not None else None
+        if ret is None or not (isinstance(ret, ast.Call) and astq.callee_name(ret) == "group_atoms" and ret.args):
+            problems.append("the result is not group_atoms(selected atoms, ...)")
+            continue
+        rest = [norm(a) for a in ret.args[1:]]
+        if rest != ["modified", "sequence_by_entity", "is_nucleic_acid_by_entity", "nucleic_acid_only"]:
+            problems.append(f"group_atoms receives {rest} after the atoms")
+        sel = _beta(ret.args[0])
+        t = norm(sel)
+        x = None
+        for pat in ("list(filter(lambda V_: V_.model == X_, atoms))", "[V_ for V_ in atoms if V_.model == X_]", "list((V_ for V_ in atoms if V_.model == X_))", "list(list(filter(lambda V_: V_.model == X_, atoms)))", "list([V_ for V_ in atoms if V_.model == X_])", "list(filter(lambda V_: X_ == V_.model, atoms))", "[V_ for V_ in atoms if X_ == V_.model]"):
+            m = astq.match(sel, pat)
+            if m:
+                x = norm(m["X_"])
+                break
+        requested = dec.get("model is not None") is True and (dec.get("model in available_models") is True or dec.get("model in available_models.keys()") is True)
+        declined = dec.get("model is not None") is False or dec.get("model in available_models") is False or dec.get("model in available_models.keys()") is False
+        if not requested and not declined:
+            problems.append(f"path decisions {dec} do not say whether the requested model is present")
+            continue
+        results[(tuple(sorted(dec.items())), requested)] = (x, t, st)
+    if problems:
+        chk.error("model-selection", fi.where, "; ".join(sorted(set(problems))[:2]))
+        return
+    if not results:
+        chk.error("model-selection", fi.where, "no path through read_3d_structure understood")
+        return
+    n_req = n_def = 0
+    for (dec, requested), (x, t, st) in results.items():
+        if x is None:
+            chk.error("model-selection", fi.site(st), f"selected atoms `{t[:110]}` are not `atoms whose model equals M`")
+            continue
+        if requested:
+            n_req += 1
+            chk.expect(x == "model", "model-selection", fi.site(st), "a requested model that is present selects exactly the atoms with atom.model == model", f"when the requested model is present the atoms with model == `{x[:60]}` are returned, not those of the requested model", K(fi, "select-requested"), found=x)
+        else:
+            n_def += 1
+            first_ok = any(x == f.replace("AM", am) for f in FIRST_FORMS[:5] for am in AM_FORMS)
+            if x == "model":
+                chk.violation("model-selection", fi.site(st), "when no model is requested (or it is absent) the atoms are still filtered by `model`: the result is empty instead of the first model", K(fi, "select-default"), found=x)
+            elif first_ok:
+                chk.ok("model-selection", fi.site(st), "without a (present) requested model the first model of the file is selected (models in order of first appearance)")
+            else:
+                other = None
+                for am in AM_FORMS:
+                    for form in (f"list({am}.keys())[K_]", f"list({am})[K_]"):
+                        try:
+                            mm = astq.match(ast.parse(x, mode="eval").body, form)
+                        except SyntaxError:
+                            mm = None
+                        if mm and isinstance(mm["K_"], (ast.Constant, ast.UnaryOp)) and norm(mm["K_"]) != "0":
+                            other = norm(mm["K_"])
+                    if x in (f"max({am})", f"max({am}.keys())", f"sorted({am})[-1]"):
+                        other = "max"
+                if other is not None:
+                    chk.violation("model-selection", fi.site(st), f"without a (present) requested model the model at position {other} of the file's models is selected, not the first one", K(fi, "select-default"), found=x)
+                else:
+                    chk.error("model-selection", fi.site(st), f"default model `{x[:90]}` not recognised as the first model of the file")
+    if n_req == 0 or n_def == 0:
+        chk.error("model-selection", fi.where, "requested/default model cases not both found")
 
 
 def check_group(chk) -> None:
@@ -315,6 +750,7 @@ def run(chk) -> None:
     )
     chk.trusted = ["CPython ast", "mmcif IoAdapterPy tokenizer", "scipy KDTree", "wwPDB column table (spec/pdb_columns.json)"]
     chk.assumptions = ["well-formed files", "CPython iterates set(range(n)) in ascending order for the sizes involved (keeps file order; noted residual)"]
+    chk.robust |= {"int-parsing", "occupancy-wins", "optional-occupancy", "kdtree-index-space", "clash-same-model", "clash-loser", "clash-loop", "clash-distance", "pdb-columns", "null-markers", "late-binding", "model-selection"}
     check_model_selection(chk)
     check_pdb_columns(chk)
     check_parse_pdb(chk)
